@@ -423,3 +423,57 @@ func CheckEncoding(l *bal.ConstructionBlockAccessList, txCount int) []string {
 	}
 	return problems
 }
+
+// CheckLookup compares the index-addressable view of a block-level list with the worlds the
+// block went through: worlds[0] is the world before the block, worlds[i] the world after the
+// transaction with block access index i.  The value observed at index L (latest change
+// strictly before L) must be the value in worlds[L-1]; if no change is recorded before L the
+// value must still be the one of worlds[0].
+func (u *Universe) CheckLookup(enc *bal.BlockAccessList, worlds []World) []string {
+	var problems []string
+	bad := func(f string, a ...any) { problems = append(problems, fmt.Sprintf(f, a...)) }
+	lk := enc.Lookup()
+	for a := 1; a <= u.NA; a++ {
+		addr := u.Addr(a)
+		for L := 1; L <= len(worlds); L++ {
+			cur, base := worlds[L-1][a-1], worlds[0][a-1]
+			b, n, c, hb, hn, hc := lk.AccountChanges(addr, uint32(L))
+			if hb {
+				if v, ok := smallU256(b); !ok || v != cur.Bal {
+					bad("Lookup: balance of a%d at index %d is %v, the world before that index has %d", a, L, b, cur.Bal)
+				}
+			} else if cur.Bal != base.Bal {
+				bad("Lookup: no balance change of a%d before index %d, but the balance went from %d to %d", a, L, base.Bal, cur.Bal)
+			}
+			if hn {
+				if int64(n) != cur.Nonce {
+					bad("Lookup: nonce of a%d at index %d is %d, the world before that index has %d", a, L, n, cur.Nonce)
+				}
+			} else if cur.Nonce != base.Nonce {
+				bad("Lookup: no nonce change of a%d before index %d, but the nonce went from %d to %d", a, L, base.Nonce, cur.Nonce)
+			}
+			if hc {
+				if CodeID(c) != cur.Code {
+					bad("Lookup: code of a%d at index %d is %x, the world before that index has code %d", a, L, c, cur.Code)
+				}
+				if c2, ok := lk.Code(addr, uint32(L)); !ok || !bytes.Equal(c, c2) {
+					bad("Lookup.Code and Lookup.AccountChanges disagree for a%d at index %d", a, L)
+				}
+			} else if cur.Code != base.Code {
+				bad("Lookup: no code change of a%d before index %d, but the code went from %d to %d", a, L, base.Code, cur.Code)
+			}
+			for k := 1; k <= u.NS; k++ {
+				v, has := lk.Storage(addr, u.Slot(k), uint32(L))
+				cv, bv := cur.St[k-1], base.St[k-1]
+				if has {
+					if x, ok := ValOf(v); !ok || x != cv {
+						bad("Lookup: slot a%d/s%d at index %d is %x, the world before that index has %d", a, k, L, v, cv)
+					}
+				} else if cv != bv {
+					bad("Lookup: no write of a%d/s%d before index %d, but the slot went from %d to %d", a, k, L, bv, cv)
+				}
+			}
+		}
+	}
+	return problems
+}
